@@ -149,6 +149,9 @@ func joinPath(a, b string) string {
 	if a == "" {
 		return b
 	}
+	if b == "" {
+		return a
+	}
 	return a + "." + b
 }
 
@@ -583,6 +586,9 @@ func (e *SpecEnv) evalCall(x SCall) SV {
 	case "cap":
 		v := arg(0)
 		return SV{Term: "(scap " + v.Term + ")", Typ: intT}
+	case "allocBound":
+		// every array/object id allocated so far is below this bound
+		return SV{Term: e.Cur.Next(), Typ: intT}
 	case "arr":
 		// identity of the backing array of a slice (0 for nil)
 		v := arg(0)
